@@ -18,8 +18,10 @@ TraceFile == IF "TRACE" \in DOMAIN IOEnv THEN IOEnv.TRACE ELSE "trace.ndjson"
 Scn == ndJsonDeserialize(TraceFile)
 N == Len(Scn)
 
-VARIABLES i, k, C, verdict
-vars == <<i, k, C, verdict>>
+VARIABLES i, k, C, verdict,
+          G          \* process-wide registry of module objects: [n, tags, dead]
+vars == <<i, k, C, verdict, G>>
+G0 == [n |-> 0, tags |-> <<>>, dead |-> {}]
 
 Has(r, f) == f \in DOMAIN r
 Fld(r, f, dflt) == IF f \in DOMAIN r THEN r[f] ELSE dflt
@@ -43,7 +45,7 @@ VSame(a, b) ==
         [] a.t = "dec" -> a.h = b.h
         [] a.t = "str" -> IF "v" \in DOMAIN a THEN "v" \in DOMAIN b /\ a.v = b.v ELSE "b" \in DOMAIN b /\ a.b = b.b
         [] a.t \in {"bigint", "bigdec"} -> a.w = b.w
-        [] a.t = "obj" -> a.h = b.h
+        [] a.t = "obj" -> IF "id" \in DOMAIN a THEN "id" \in DOMAIN b /\ a.id = b.id ELSE "h" \in DOMAIN b /\ a.h = b.h
         [] a.t = "raw" -> a.b = b.b
         [] a.t = "null" -> a.ty = b.ty
         [] a.t \in {"tup", "tab"} -> a.ty = b.ty /\ Len(a.v) = Len(b.v) /\ \A j \in DOMAIN a.v : VSame(a.v[j], b.v[j])
@@ -127,6 +129,37 @@ SameVars(o1, o2) ==
 
 StaticRejectable(S) == S.sig = "err" /\ S.err.kind = "OTHER" /\ S.err.name \in {"type", "rank", "tuple item", "table elem", "const"}
 
+(* ---------------- module objects: lifetime monitor (C17) --------------- *)
+\* script-visible holders of object id over all contexts
+Holders(c, id) == LET ids == DOMAIN c IN
+  LET Sum[S \in SUBSET ids] == IF S = {} THEN 0 ELSE LET x == CHOOSE x \in S : TRUE IN
+        Sum[S \ {x}] + (LET vs == c[x].vars IN
+                         LET Tot[W \in SUBSET (DOMAIN vs)] == IF W = {} THEN 0 ELSE LET n == CHOOSE n \in W : TRUE IN Tot[W \ {n}] + RefsIn(vs[n], id)
+                         IN Tot[DOMAIN vs])
+  IN Sum[ids]
+EvArgSame(a, b) ==     \* event argument a (observed) against specification value b
+  IF IsNull(b) THEN a.t = "null"
+  ELSE a.t = b.t /\ (CASE b.t = "int" -> a.v = b.v [] b.t = "str" -> a.v = b.v [] b.t = "dec" -> a.h = b.h
+                        [] b.t = "bool" -> a.v = b.v [] b.t = "obj" -> a.id = b.id [] OTHER -> TRUE)
+EvSame(a, b) ==        \* observed create/method event a against expected event b
+  /\ a.e = b.e /\ a.id = b.id
+  /\ (b.e = "create" => a.tag = b.tag)
+  /\ (b.e = "method" => a.name = b.name /\ Len(a.args) = Len(b.args) /\ \A j \in DOMAIN b.args : EvArgSame(a.args[j], b.args[j]))
+Calls(ev) == SelectSeq(ev, LAMBDA x : x.e \in {"create", "method"})
+Destroyed(ev) == {ev[j].id : j \in {j \in DOMAIN ev : ev[j].e = "destroy"}}
+\* verdict on the module events of one step: expected calls `want`, contexts after the step c2, registry g2 (n updated)
+ObjWhy(ev, want, c2, g) ==
+  IF \E j \in DOMAIN ev : ev[j].e = "use_after_destroy" \/ (ev[j].e = "method" /\ ~ev[j].live)
+    THEN "a method ran on (or received) a destroyed object"
+  ELSE IF Len(Calls(ev)) # Len(want) \/ \E j \in DOMAIN want : ~EvSame(Calls(ev)[j], want[j])
+    THEN "constructor/method calls seen by the module differ from the program; expected " \o ToJson(want)
+  ELSE IF \E j \in DOMAIN ev : ev[j].e = "destroy" /\ (ev[j].id \in g.dead \/ ~ev[j].was_live \/ \E q \in 1..(j - 1) : ev[q].e = "destroy" /\ ev[q].id = ev[j].id)
+    THEN "an object was destroyed twice"
+  ELSE IF \E id \in Destroyed(ev) : id > g.n THEN "an unknown object was destroyed"
+  ELSE IF \E id \in Destroyed(ev) : Holders(c2, id) > 0
+    THEN "an object was destroyed while a variable, table element or tuple item still refers to it"
+  ELSE ""
+
 (* ------------------------------ one step ------------------------------ *)
 \* returns [C |-> new contexts, why |-> "" or reason]
 StepResult(st, o, c, sc) ==
@@ -202,7 +235,7 @@ Report(id, kk, why, st, o) ==
   IF why = "" THEN TRUE
   ELSE PrintT("@@V " \o ToJson([id |-> id, k |-> kk, why |-> why]))
 
-Init == /\ i \in 1..N /\ k = 0 /\ C = <<>> /\ verdict = ""
+Init == /\ i \in 1..N /\ k = 0 /\ C = <<>> /\ verdict = "" /\ G = G0
 
 Next ==
   /\ k < Len(Scn[i].steps)
@@ -212,11 +245,31 @@ Next ==
          THEN \* the process died or hung inside this scenario: no specification step allows that
               /\ verdict' = "no observation: " \o sc.end \o " " \o Fld(sc, "san", "")
               /\ Report(sc.id, k + 1, verdict', st, <<>>)
-              /\ k' = Len(sc.steps) /\ C' = C /\ i' = i
+              /\ k' = Len(sc.steps) /\ C' = C /\ i' = i /\ G' = G
          ELSE LET o == sc.obs[k + 1]
-                  r == StepResult(st, o, C, sc)
-              IN  /\ verdict' = r.why
-                  /\ Report(sc.id, k + 1, r.why, st, o)
+                  objs == Has(sc, "objects")
+                  \* the process-wide object registry is threaded through the context the step runs in
+                  Cin == IF objs /\ Has(st, "ctx") /\ st.ctx \in DOMAIN C
+                         THEN [C EXCEPT ![st.ctx] = [@ EXCEPT !.nobj = G.n, !.otags = G.tags, !.oev = <<>>]]
+                         ELSE IF objs /\ Has(st, "ctx") THEN PutCtx(C, st.ctx, [State0 EXCEPT !.nobj = G.n, !.otags = G.tags]) ELSE C
+                  r == StepResult(st, o, Cin, sc)
+                  Sout == IF objs /\ Has(st, "ctx") /\ st.ctx \in DOMAIN r.C THEN r.C[st.ctx] ELSE State0
+                  g1 == IF objs /\ st.op \in {"exec", "step"} /\ ~Has(st, "reject") THEN [G EXCEPT !.n = Sout.nobj, !.tags = Sout.otags] ELSE G
+                  ow == IF objs /\ r.why = "" /\ Has(o, "ev")
+                        THEN ObjWhy(o.ev, IF st.op \in {"exec", "step"} THEN Sout.oev ELSE <<>>, r.C, g1) ELSE ""
+                  last == k + 1 = Len(sc.steps)
+                  \* at the end every context and program is released: every object must have been destroyed exactly once
+                  endw == IF objs /\ last /\ r.why = "" /\ ow = "" THEN
+                             LET d2 == g1.dead \cup Destroyed(o.ev) \cup Destroyed(sc.evend) IN
+                             IF d2 # 1..g1.n THEN "after releasing everything some object was never destroyed (or an unknown one was)"
+                             ELSE IF \E j \in DOMAIN sc.evend : sc.evend[j].e = "destroy" /\ (sc.evend[j].id \in g1.dead \cup Destroyed(o.ev) \/ ~sc.evend[j].was_live
+                                        \/ \E q \in 1..(j - 1) : sc.evend[q].e = "destroy" /\ sc.evend[q].id = sc.evend[j].id)
+                                  THEN "an object was destroyed twice" ELSE ""
+                          ELSE ""
+                  why == IF r.why # "" THEN r.why ELSE IF ow # "" THEN ow ELSE endw
+              IN  /\ verdict' = why
+                  /\ Report(sc.id, k + 1, why, st, o)
+                  /\ G' = [g1 EXCEPT !.dead = @ \cup (IF objs /\ Has(o, "ev") THEN Destroyed(o.ev) ELSE {})]
                   /\ C' = r.C /\ k' = k + 1 /\ i' = i
 
 Spec == Init /\ [][Next]_vars
